@@ -231,7 +231,10 @@ def ifaceFacts (names : Array String) (i : MIface) : List String :=
       let ob := bundle .out f.params
       s!"method {I} {nm names o} {nm names f.name} opt={if f.optional then 1 else 0} counts={c.bi},{c.bo},{c.oi},{c.oo} ibundle=[{bundleText names ib}]:{bundleSize ib} obundle=[{bundleText names ob}]:{bundleSize ob} events=[{" ".intercalate ((events f.params).map (evText names))}]"
     let st := i.flatFuncs.flatMap fun (_, f) => paramStructs names f.params
-    ops ++ errs ++ meths ++ st
+    -- model-only (not observable through the probe): slot sections along the walk
+    let sl := i.flatFuncs.map fun (o, f) =>
+      s!"#slots {I} {nm names o} {nm names f.name} {",".intercalate ((slotSections f.params).map toString)}"
+    ops ++ errs ++ meths ++ st ++ sl
 
 def mirFacts (names : Array String) (mir : List MNode) : List String :=
   mir.flatMap fun
